@@ -26,6 +26,15 @@ def F(prop, name, file, func, find, replace, rule=None, count=1, note=""):
     CAT.setdefault(prop, []).append(Mutant(prop + ":" + name, "fault", file, func, find, replace, rule, count, note))
 
 
+def FB(prop, name, base, file, func, find, replace, rule=None, count=1, note=""):
+    """fault variant applied ON TOP OF a behaviour-preserving refactor of the corpus (the rule must survive the refactor)"""
+    CAT.setdefault(prop, []).append(Mutant(prop + ":" + name + "@" + base, "fault", file, func, find, replace, rule, count, note, base=base))
+
+
+def NB(prop, name, base, file, func, find, replace, count=1, note=""):
+    CAT.setdefault(prop, []).append(Mutant(prop + ":" + name + "@" + base, "neutral", file, func, find, replace, None, count, note, base=base))
+
+
 def N(prop, name, file, func, find, replace, count=1, note=""):
     CAT.setdefault(prop, []).append(Mutant(prop + ":" + name, "neutral", file, func, find, replace, None, count, note))
 
@@ -699,5 +708,29 @@ def catalogue(prop: str) -> List[Mutant]:
         for src in ("C01", "C02", "C03"):
             for m in CAT.get(src, []):
                 if m.kind == "neutral" or (m.rule or "").endswith(".1"):
-                    out.append(Mutant("C12:" + m.name, m.kind, m.file, m.func, m.find, m.replace, None, m.count, m.note))
+                    out.append(Mutant("C12:" + m.name, m.kind, m.file, m.func, m.find, m.replace, None, m.count, m.note, base=getattr(m, "base", None)))
     return out
+
+
+# =========================================================================== stacked variants: a fault on top of a refactor
+# (the restructured dispatcher of neutral-M6, the out-parameter helper of neutral-M3)
+FB("C04", "unswapped-polyhedron-polygon-row", "neutral-M6", INTER, "intersection",
+   "return inter_convexpolygon_convexPolyhedron(second, first)", "return inter_convexpolygon_convexPolyhedron(first, second)", rule="R4.2")
+FB("C04", "two-ranks-exchanged", "neutral-M6", INTER, "_kind_rank",
+   "    if isinstance(obj, Plane):\n        return 2\n    if isinstance(obj, Segment):\n        return 3",
+   "    if isinstance(obj, Plane):\n        return 3\n    if isinstance(obj, Segment):\n        return 2", rule="R4.2")
+NB("C04", "strict-rank-comparison", "neutral-M6", INTER, "intersection", "if rank_a <= rank_b:", "if rank_a < rank_b:",
+   note="equal ranks are the same type: either order runs the same handler")
+FB("C01", "end-point-candidate-dropped", "neutral-M6", INTER, "inter_segment_segment",
+   "_points_within((a.start_point, a.end_point), b)", "_points_within((a.start_point,), b)", rule="R1.2")
+FB("C01", "crossing-point-clipped-once", "neutral-M6", INTER, "_inter_crossing_linears",
+   "if inter_l_l in a and inter_l_l in b:", "if inter_l_l in a:", rule="R1.1")
+FB("C12", "crossing-point-clipped-once", "neutral-M6", INTER, "_inter_crossing_linears",
+   "if inter_l_l in a and inter_l_l in b:", "if inter_l_l in a:", rule="R12.1")
+NB("C12", "strict-rank-comparison", "neutral-M6", INTER, "intersection", "if rank_a <= rank_b:", "if rank_a < rank_b:")
+FB("C02", "edge-family-dropped-in-helper-form", "neutral-M3", AUX, "get_segment_convexpolyhedron_intersection_point_set",
+   "    _add_point_intersections(point_set, cph.segment_set, s)\n", "", rule="R2.2")
+FB("C02", "helper-intersects-carrier-line", "neutral-M3", AUX, "_add_point_intersections",
+   "inter = body.intersection(other)", "inter = body.intersection(other.line)", rule="R2.1")
+FB("C11", "normalised-pair-wrong-predicate", "neutral-M6", C + "angle.py", "parallel",
+   "return a.dv.orthogonal(b.n)", "return a.dv.parallel(b.n)", rule="R11.3")
